@@ -719,7 +719,8 @@ def run(ctx):
             depth, CYCLES, 6 if thorough else 3))
     # self-test: determinism of the first case
     c0 = ["ClimateData", 5, 3, 78, 2, False]
-    assert fam_window(c0)["sig"] == fam_window(c0)["sig"], "not deterministic"
+    ctx.selftest_same(fam_window(c0)["sig"] == fam_window(c0)["sig"],
+                      "fam_window%r" % (c0,))
     # ---- window
     cases = []
     for N in (3, 4):
